@@ -211,8 +211,8 @@ func (e *clientEnd) Close() error {
 	e.c.c2sClosed = true
 	return nil
 }
-func (e *clientEnd) LocalAddr() net.Addr                { return SimAddr{-3} }
-func (e *clientEnd) RemoteAddr() net.Addr               { return SimAddr{-4} }
+func (e *clientEnd) LocalAddr() net.Addr                { return SimAddr{ID: -3} }
+func (e *clientEnd) RemoteAddr() net.Addr               { return SimAddr{ID: -4} }
 func (e *clientEnd) SetDeadline(t time.Time) error      { return nil }
 func (e *clientEnd) SetReadDeadline(t time.Time) error  { return nil }
 func (e *clientEnd) SetWriteDeadline(t time.Time) error { return nil }
